@@ -66,8 +66,8 @@ def ext_import(argv):
         if r.returncode:
             print('PATCH DOES NOT APPLY', r.stdout, r.stderr)
             return 1
-        d0 = run(f'cd {clean} && PYTHONPATH={clean} /venv/bin/python -W ignore {os.path.abspath(equiv)} {clean}', timeout=1200)
-        d1 = run(f'cd {pat} && PYTHONPATH={pat} /venv/bin/python -W ignore {os.path.abspath(equiv)} {pat}', timeout=1200)
+        d0 = run(f'cd {clean} && PYTHONHASHSEED=0 PYTHONPATH={clean} /venv/bin/python -W ignore {os.path.abspath(equiv)} {clean}', timeout=1200)
+        d1 = run(f'cd {pat} && PYTHONHASHSEED=0 PYTHONPATH={pat} /venv/bin/python -W ignore {os.path.abspath(equiv)} {pat}', timeout=1200)
         suite = run(f'/venv/bin/python {HERE}/tools/baseline.py {pat}')
         same = d0.returncode == 0 and d1.returncode == 0 and d0.stdout.strip().splitlines()[-1:] == d1.stdout.strip().splitlines()[-1:]
         print(f'equiv clean exit={d0.returncode} patched exit={d1.returncode} same_digest={same} suite={"ok" if suite.returncode == 0 else "CHANGED"}')
